@@ -827,8 +827,30 @@ async fn schedule_task(
 ) -> Result<bool, MonorailError> {
     let mut failed = false;
     if let Some(command_path) = &plan_target.command_path {
-        // check that the command path is executable before proceeding
-        if file::is_executable(command_path) {
+        // check that the command path is executable before proceeding; a file that has an
+        // execute bit but cannot be started by this user (no execute permission for it, not
+        // an executable format, missing interpreter) is not executable either
+        let child = if file::is_executable(command_path) {
+            match spawn_task(
+                &plan_target.command_work_path,
+                command_path,
+                &plan_target.command_args,
+            ) {
+                Ok(child) => Some(child),
+                Err(e) => {
+                    error!(
+                        command = *task.command,
+                        target = &plan_target.path,
+                        error = e.to_string(),
+                        "Task could not be started"
+                    );
+                    None
+                }
+            }
+        } else {
+            None
+        };
+        if let Some(child) = child {
             let status = RunStatus::Scheduled;
             info!(
                 status = status.as_str(),
@@ -837,11 +859,6 @@ async fn schedule_task(
                 "Task"
             );
             let task_id = task.id;
-            let child = spawn_task(
-                &plan_target.command_work_path,
-                command_path,
-                &plan_target.command_args,
-            )?;
             let handle = join_set.spawn(async move { task.run(child).await });
             abort_table.insert(handle.id(), task_id);
         } else {
